@@ -71,6 +71,9 @@ def strategy_c09(draw):
         "cbform": draw(st.sampled_from(["pos", "kw", "obj_pos", "partial_kw"])),
         # the evaluation budget ends exactly at the triggering evaluation (the request must win)
         "tight_budget": draw(st.integers(0, 3)) == 0,
+        # both thresholds exactly at the values of one evaluation: feasibility_tol equal to its violation and
+        # the target equal to its objective value (requests are satisfied with equality)
+        "exact_tol": draw(st.integers(0, 2)) == 0,
     }
     if tight and draw(st.booleans()):
         # a target that every objective value meets: the run must stop at the first *feasible* evaluation
@@ -92,6 +95,24 @@ def evaluate_log(b, t):
         tv, tol = S.true_violation(b, rec["x"], rec["nl"])
         rows.append((rec["fun"], tv, 256 * S.EPS * tol, rec["kind"]))
     return rows
+
+
+def exact_plan(rows, k, out):
+    """Thresholds placed exactly at the values of one evaluation at or after the k-th:
+    (feasibility_tol = its violation, target = its objective value), or None."""
+    cand = [(i + 1, f, tv) for i, (f, tv, tl, kind) in enumerate(rows)
+            if i + 1 >= k and f is not None and math.isfinite(f) and abs(f) <= 1e20
+            and not math.isnan(tv) and tv <= 1e20]
+    # prefer an evaluation preceded by a more violated point with a lower objective value: there the
+    # feasible-first rule decides what is returned
+    pref = [c for c in cand if any(r_[0] is not None and not math.isnan(r_[0]) and not math.isnan(r_[1])
+                                   and r_[1] > c[2] and r_[0] < c[1] for r_ in rows[:c[0] - 1])]
+    if pref:
+        cand = pref
+        out.label("exact-tol:lower-infeasible-before")
+    if not cand:
+        return None
+    return float(cand[0][2]), float(cand[0][1])
 
 
 def run_case(spec):
@@ -158,7 +179,21 @@ def run_case(spec):
                     chosen = (i + 1, f, best)
                     break
                 best = f
-        if chosen is not None:
+        if plan.get("exact_tol") and not fun_none:
+            ep = exact_plan(rows, k, out)
+            if ep is not None:
+                tol0, f = ep
+                real["options"]["feasibility_tol"] = tol0
+                real["options"]["target"] = f
+                chosen = None
+                for i, (f2, tv2, tl2, kind2) in enumerate(rows):
+                    if f2 is not None and not math.isnan(f2) and not math.isnan(tv2) and tv2 <= tol0 and f2 <= f:
+                        chosen = (i + 1, f2, math.inf)
+                        break
+                out.label("exact-tol")
+            else:
+                out.label("no-exact-tol-candidate")
+        elif chosen is not None:
             i1, f, prev = chosen
             if plan["exact"] or not math.isfinite(prev) or abs(f + 0.5 * (prev - f)) > 1e20:
                 real["options"]["target"] = f
